@@ -7,8 +7,12 @@
    Conventions
    - a byte is an `N` (intended < 256), a file is a `list N`;
    - all integers in the file are 4-byte little endian and are decoded UNSIGNED
-     (the Python code uses '<i' for most fields; under `image_ok` every such
-     field is < 2^31, so signedness is irrelevant there);
+     by [de32]/[rd32].  The Python code uses the signed '<i' for most fields;
+     under `image_ok` every such field is < 2^31, so signedness is irrelevant
+     there.  For malformed files the reader treats raw values >= 2^31 in
+     scene_off, scene_count, data_off and the sound indexes the way Python
+     treats the corresponding negative numbers (see the comments below);
+     a negative last_speak is returned as its raw unsigned value;
    - the scene payload of an entry is an opaque blob, the LZMA step is
      abstracted away (see Section Codec in ScenesImageProofs.v);
    - the string pool is an input of the writer.
@@ -246,9 +250,16 @@ Definition read_summary (version : N) (l : list N) : option (N * N * list N) :=
       end
   end.
 
-(** [string_pool[i]]; out of range = failure. *)
+(** [string_pool[i]]; out of range = failure (IndexError).  The index is
+    read with the signed format '<i', so a raw value [i >= 2^31] denotes the
+    negative number [i - 2^32], which Python resolves from the END of the
+    list when [-len <= i - 2^32]. *)
 Definition lookup (pool : list (list N)) (i : N) : option (list N) :=
-  if i <? lenN pool then Some (nth (N.to_nat i) pool []) else None.
+  if i <? lenN pool then Some (nth (N.to_nat i) pool [])
+  else if (4294967296 - lenN pool <=? i) && (i <? 4294967296)
+            && (lenN pool <? 2147483648) then
+         Some (nth (N.to_nat (i - (4294967296 - lenN pool))) pool [])
+       else None.
 
 Definition read_entry (file : list N) (version : N) (pool : list (list N))
     (r : rawrec) : option pentry :=
@@ -259,6 +270,8 @@ Definition read_entry (file : list N) (version : N) (pool : list (list N))
       match mapM (lookup pool) idx with
       | None => None
       | Some snds =>
+          (* data_off is signed: [file.seek] of a negative value raises *)
+          if 2147483648 <=? doff then None else
           Some (mkPentry crc dur last snds (take dsize (seek file doff)))
       end
   end.
@@ -302,6 +315,10 @@ Definition parse_body (file : list N) (version nscene nstr scene_off : N)
       match mapM (read_str file) offs with
       | None => None
       | Some pool =>
+          (* scene_off is signed: seeking to a negative offset raises *)
+          if 2147483648 <=? scene_off then None else
+          (* scene_count is signed: range(negative) is empty *)
+          if 2147483648 <=? nscene then Some (version, pool, []) else
           if negb (nscene <=? lenN file) then None else
           match read_recs (N.to_nat nscene) (seek file scene_off) with
           | None => None
